@@ -118,6 +118,24 @@ static Case gen_probe(const Args &a, uint64_t seed) {
     sim::Rng r(sim::derive(seed, 0xC18));
     std::string prof = pp[r.below(5)];
     uint64_t ps = (sim::derive(seed, 0xC18C18) % 1000000007ULL) * 8 + 1 + (seed % 7);
+    if (r.chance(0.45)) {
+        // split probe: a first-time factorization followed by solves that reuse its factors; the worker executes the prefix history
+        // *between* the factorization and the solves, the pristine process executes the probe uninterrupted
+        Case h = gen_case("hist", ps, go);
+        std::vector<OpSpec> keep;
+        for (auto &op : h.ops) {
+            bool first_time = (op.kind == OP_GSSVX && op.x.fact != 2 && !op.x.refact) || (op.kind == OP_ROUTE && !op.x.refact);
+            bool reuse = (op.kind == OP_GSSVX && op.x.fact == 2) || op.kind == OP_GSTRS;
+            if (keep.empty()) { if (first_time) keep.push_back(op); else break; }
+            else if (reuse) keep.push_back(op);
+            else break;
+        }
+        if (keep.size() >= 2) {
+            h.ops = keep; h.tags["split_probe"] = 1;
+            for (auto &op : h.ops) op.dyn_snode = false;
+            return h;
+        }
+    }
     Case c = gen_case(prof, ps, go);
     for (auto &op : c.ops) op.dyn_snode = false;     // keep probes clear of the listed dynamic-storage finding
     return c;
@@ -169,20 +187,24 @@ static Outcome run_carry(const Args &a, uint64_t seed, Zygote &z, Case &probe_ou
     static const char *pre[] = {"hist", "hist", "leak", "svx", "strf", "ssv", "mem", "sing", "leak", "hist"};
     int np = (int)r.range(1, 2);
     std::string names; long pre_viols = 0;
-    for (int k = 0; k < np; ++k) {
-        std::string prof = pre[r.below(10)];
-        uint64_t ps = (sim::derive(seed, 77 + k) % 1000000007ULL) * 8 + 1 + (uint64_t)r.below(7);
-        Case pc = gen_case(prof, ps, go);
-        if (prof == "sing") for (auto &op : pc.ops) op.kind = op.kind; // may end the process through a listed finding: accepted
-        RunnerOpts ro; ro.record = false;
-        Outcome po = run_case(pc, ro);
-        pre_viols += (long)po.viols.size();
-        names += prof + "(" + prec_name(pc.prec) + ",n=" + std::to_string(pc.M.n) + ") ";
-    }
+    auto run_prefix = [&]() {
+        for (int k = 0; k < np; ++k) {
+            std::string prof = pre[r.below(10)];
+            uint64_t ps = (sim::derive(seed, 77 + k) % 1000000007ULL) * 8 + 1 + (uint64_t)r.below(7);
+            Case pc = gen_case(prof, ps, go);
+            RunnerOpts ro; ro.record = false;   // a prefix may end the process through a listed finding: accepted
+            Outcome po = run_case(pc, ro);
+            pre_viols += (long)po.viols.size();
+            names += prof + "(" + prec_name(pc.prec) + ",n=" + std::to_string(pc.M.n) + ") ";
+        }
+    };
     Case probe = gen_probe(a, seed);
     probe_out = probe;
+    bool split = probe.tags.count("split_probe") > 0;
     RunnerOpts ro; ro.record = false;
+    if (split) { ro.between = run_prefix; ro.between_after = 0; } else run_prefix();
     Outcome o = run_case(probe, ro);
+    if (split) o.probes["carry_split_probes"]++;
     o.probes["carry_prefix_cases"] += np; o.probes["carry_prefix_violations_coobserved"] += pre_viols;
     if (o.sample.t == J::OBJ) o.sample.set("carry_prefix", names);
     ProbeReply f1{0, 0};
